@@ -145,6 +145,29 @@ def wellformed(prog):
 # ---------------------------------------------------------------------------
 # execution against sc3
 
+def install_bytesio_guard():
+    """Harness-side memory safety: SynthDef.as_bytes() returns
+    `BytesIO().getbuffer()` of a stream that is deallocated on return (CPython
+    prints "deallocated BytesIO object has exported buffers" and the view
+    dangles; hundreds of thousands of builds per process can end in a crash at
+    interpreter exit).  Give the synthdef module a BytesIO whose getbuffer() is
+    a view on an independent copy; the bytes are the same."""
+    import io
+    import types
+    from sc3.synth import synthdef as sdf
+    if getattr(sdf.io, '_vf_guard', False):
+        return
+
+    class _SafeBytesIO(io.BytesIO):
+        def getbuffer(self):
+            return memoryview(self.getvalue())
+    ns = types.SimpleNamespace(**{k: getattr(io, k) for k in dir(io)
+                                  if not k.startswith('__')})
+    ns.BytesIO = _SafeBytesIO
+    ns._vf_guard = True
+    sdf.io = ns
+
+
 def make_func(prog, log=None, at_end=None):
     """Python graph function for SynthDef(name, func).  `log` (a dict) receives
     'outs': [{'out': i, 'rate': 'ar'|'kr', 'bus': b, 'chans': [node indices]}]
